@@ -817,5 +817,65 @@ pub fn fixed_string_programs() -> Vec<(Prog, String)> {
             }
         }
     }
+    // values with characters above 127 (one character each, whatever their encoding inside the interpreter):
+    // shorter than, as long as and longer than the field, also where the number of BYTES of a short value equals n
+    // and where the n-th byte of a long value falls inside a character
+    let chr = |k: i64| builtin("CHR$", vec![num(k)]);
+    let cat = |parts: Vec<Expr>| parts.into_iter().reduce(|a, b| bin(BinOp::Add, a, b)).unwrap();
+    let high: Vec<(&str, Expr)> = vec![
+        ("one high character", chr(200)),
+        ("two high characters", cat(vec![chr(200), chr(201)])),
+        ("a, high, b", cat(vec![st("a"), chr(233), st("b")])),
+        ("abc, high, high, x", cat(vec![st("abc"), chr(233), chr(233), st("x")])),
+        ("high, a, high, b, high, c", cat(vec![chr(246), st("a"), chr(246), st("b"), chr(246), st("c")])),
+        ("Malm, high, xyz", cat(vec![st("Malm"), chr(246), st("xyz")])),
+        ("five high characters", cat(vec![chr(128), chr(160), chr(200), chr(254), chr(255)])),
+    ];
+    for n in [2u16, 3, 4, 6] {
+        for (hl, src) in &high {
+            for holder in 0..3 {
+                for route in [0usize, 1, 4] {
+                    let mut b = B::new();
+                    let mut main = vec![];
+                    let types = vec![TypeDef { name: "Box".into(), fields: vec![("F".into(), DeclTy::FixStr(n)), ("K".into(), DeclTy::Scalar(Ty::Int))] }];
+                    let loc: Expr = match holder {
+                        0 => {
+                            main.push(b.s(K::Dim { shared: false, redim: false, vars: vec![DimVar { name: "H".into(), ty: Some(DeclTy::FixStr(n)), dims: vec![] }] }));
+                            var("H")
+                        }
+                        1 => {
+                            main.push(b.s(K::Dim { shared: false, redim: false, vars: vec![DimVar { name: "R".into(), ty: Some(DeclTy::Rec("Box".into())), dims: vec![] }] }));
+                            Expr::Field(Box::new(var("R")), "F".into())
+                        }
+                        _ => {
+                            main.push(b.s(K::Dim { shared: false, redim: false, vars: vec![DimVar { name: "H".into(), ty: Some(DeclTy::FixStr(n)), dims: vec![(Some(num(1)), num(2))] }] }));
+                            Expr::Index("H".into(), vec![num(2)])
+                        }
+                    };
+                    let mut subs = vec![];
+                    match route {
+                        0 => main.push(b.assign(loc.clone(), src.clone())),
+                        1 => {
+                            main.push(b.s(K::Call("SetIt".into(), vec![loc.clone()])));
+                            let body = vec![b.assign(var("P$"), src.clone())];
+                            let id = b.id();
+                            subs.push(SubDef { id, name: "SetIt".into(), is_function: false, params: vec![Param { name: "P$".into(), ty: None, is_array: false }], body, is_static: false });
+                        }
+                        _ => {
+                            main.push(b.assign(loc.clone(), st("+")));
+                            main.push(b.assign(loc.clone(), bin(BinOp::Add, src.clone(), loc.clone())));
+                        }
+                    }
+                    // the length, and every character by its code (nothing above 127 is printed)
+                    main.push(b.print(vec![builtin("LEN", vec![loc.clone()])]));
+                    for i in 1..=n as i64 {
+                        main.push(b.print(vec![builtin("INSTR", vec![builtin("MID$", vec![loc.clone(), num(i), num(1)]), chr(32)]), bin(BinOp::Eq, builtin("MID$", vec![loc.clone(), num(i), num(1)]), chr(233)), bin(BinOp::Eq, builtin("MID$", vec![loc.clone(), num(i), num(1)]), chr(246)), bin(BinOp::Eq, builtin("MID$", vec![loc.clone(), num(i), num(1)]), st("a"))]));
+                    }
+                    let _ = hl;
+                    out.push((Prog { types, main, subs, declare: true, ..Default::default() }, String::new()));
+                }
+            }
+        }
+    }
     out
 }
